@@ -212,6 +212,29 @@ def run(ctx, rep):
                 seen_orders.add('right')
             else:
                 bad_paths.append((t['line'], f'bit==0 is {bit[0]}, index+1==next.index is {pair[:1]}: hashes {order}'))
+    # completeness of the sibling lookup: queue[start + 1] is consulted only when it exists (start + 1 != len was tested
+    # true on the path); otherwise an honest last left child would be rejected as IndexInvalid
+    nx_paths = nx_bad = 0
+    for bi, t in cr.calls():
+        if t['f'].get('name') not in ('get', 'index') or len(t.get('args', [])) != 2:
+            continue
+        if not (Tr.operand(t['args'][0]) == ('arg', 1) and plus1(Tr.operand(t['args'][1]))):
+            continue
+        for pth in exprtree.paths_to(cr, bi) or []:
+            PT = exprtree.PathTrees(db, cr, pth)
+            if not PT.consistent():
+                continue
+            nx_paths += 1
+            tested = False
+            for c, v in PT.decisions():
+                if isinstance(c, tuple) and len(c) == 3 and c[0] in ('Ne', 'ne', 'Lt', 'lt', 'Eq', 'eq') and \
+                        any(x == ('len', ('arg', 1)) for x in c[1:]) and any(plus1(x) for x in c[1:]):
+                    holds = (v != '0') if c[0] in ('Ne', 'ne', 'Lt', 'lt') else (v == '0')
+                    tested = tested or holds
+            if not tested:
+                nx_bad += 1
+    rep.ob('C04.index', 'next-exists', nx_paths > 0 and nx_bad == 0,
+           f'queue[start + 1] is read on {nx_paths} path(s); {nx_bad} of them without having tested start + 1 != queue.len()', cr.loc(), cfg)
     okl = not bad_paths and seen_orders == {'merge', 'left', 'right'}
     rep.ob('C04.index', 'left-right', okl,
            f'node hash argument order on {n_paths} paths: ' + ('(current, next) when bit==0 and index+1==next.index; (current, auth) when bit==0; '
